@@ -126,12 +126,15 @@ class MountFS(FS):
     def close(self):
         # type: () -> None
         # Explicitly closes children if requested
-        if self.auto_close:
-            for _path, fs in self.mounts:
-                fs.close()
-            del self.mounts[:]
-        self.default_fs.close()
-        super(MountFS, self).close()
+        try:
+            if self.auto_close:
+                for _path, fs in self.mounts:
+                    fs.close()
+                del self.mounts[:]
+        finally:
+            # the mount filesystem itself is closed even if a member failed to close
+            self.default_fs.close()
+            super(MountFS, self).close()
 
     def desc(self, path):
         # type: (Text) -> Text
